@@ -834,6 +834,10 @@ def run_C12_families(ctx):
     # long programs (far branches / far calls / div-by-zero paths beyond index 65535) and the
     # control-flow shapes of family cfg: compilation must not panic on them either
     recs = exec_cases(ctx, "shapes", ["far", "farcall", "cfg", "calls"], 2 if ctx.quick else 1, timeout=1500)
+    # loops whose back edge spans every code distance around the short/long jump encodings, joins,
+    # dead code, and every ordered pair of instruction kinds
+    recs += exec_cases(ctx, "flow", ["flow"], 1, timeout=1500)
+    recs += exec_cases(ctx, "pairs", ["pairs"], 3 if ctx.quick else 1, timeout=1500)
     replay_exec(ctx, "shapes", recs, ["jit", "cl"], claim=crash_only)
 
 
@@ -959,7 +963,7 @@ def run_C13(ctx):
 
 
 def run_C14(ctx):
-    recs = [x for x in text_cases(ctx, ["asm"], 24 if ctx.quick else 1, "asm") if x["fam"] in ("a5", "a2", "a3", "a4")]
+    recs = [x for x in text_cases(ctx, ["asm"], 24 if ctx.quick else 1, "asm") if x["fam"] in ("a5", "a2", "a3", "a4", "a6")]
     replay_texts(ctx, "literals", recs, keep=lambda f: "panicked" in f["reason"] or "killed" in f["reason"] or "no answer" in f["reason"])
     n = 20000 if ctx.quick else 2000000
     rep_path = os.path.join(ctx.workdir, "fuzz.report.json")
@@ -1340,7 +1344,7 @@ CHECKS = {
     "C16": {"level": "model_checking", "run": run_C16, "assumptions": ASSUME_COMMON,
             "rule": "the C15 programs: in the specification Assemble(desc(HL(p))) is computed and the RoundTrip law (identity on expressible programs, canonical form whenever accepted) is an invariant of MC_Text; on the implementation assemble(join(to_insn_vec(p).desc)) must give exactly the specified bytes / refusal; distinct by byte string"},
     "C12": {"level": "model_checking", "run": run_C12, "assumptions": ASSUME_COMMON + ["hook H2 reports the JIT's counted / emitted / buffer sizes"],
-            "rule": "every accepted program of the MC_Safety universe (all programs up to MaxLen slots over 32 templates: dead code, back edges, last-instruction kinds, wide loads, helper and local calls) compiled twice with the x86-64 JIT on the 4 VM kinds and with Cranelift, with helper sets {} and {1}; expected Ok/Err from Verifier!CompileOk; seeded random accepted programs (arbitrary opcodes / registers / displacements) validated by TLC (TraceCompile); size ladder 1..999,999 instructions incl. every size around the code buffer's first page boundary; non-trivial = accepted programs Whatever the REAL verifier accepts is compiled (also programs the specification refuses: only panics count there)."},
+            "rule": "every accepted program of the MC_Safety universe (all programs up to MaxLen slots over 32 templates: dead code, back edges, last-instruction kinds, wide loads, helper and local calls) compiled twice with the x86-64 JIT on the 4 VM kinds and with Cranelift, with helper sets {} and {1}; expected Ok/Err from Verifier!CompileOk; seeded random accepted programs (arbitrary opcodes / registers / displacements) validated by TLC (TraceCompile); size ladder 1..999,999 instructions incl. every size around the code buffer's first page boundary; families far, farcall, cfg, calls, flow (loops whose back edge spans every code distance from a few dozen to 190 bytes, conditional and unconditional) and pairs compiled and run crash-only; non-trivial = accepted programs Whatever the REAL verifier accepts is compiled (also programs the specification refuses: only panics count there)."},
     "C10": {"level": "model_checking", "run": run_C10, "assumptions": ASSUME_COMMON,
             "rule": "VmApi.tla explored completely (all histories over the finite abstract state: 8 programs x 4 verifiers x compiled artefacts x helper x calculator x layout) for each VM kind with invariants RunsLatestLoaded, LoadedWasVerified, NoProgIsError, NotCompiledIsError and the action property FailedCallIsNoOp; binding: seeded random histories of 30 calls over {new, set_program(valid|invalid|valid-for-other-verifier, layout), set_verifier, register_helper, set_stack_usage_calculator, jit_compile, cranelift_compile, execute x3 engines x2 packets} on real VM objects of each kind, every call and result validated by TraceApi.tla; plus a transition cover: every transition of the abstract state graph (MC_VmApiTour, 250-772 states, 6-28 k transitions per kind) is taken at least once by call sequences planned by lib/tour.py, performed on real objects and validated the same way; 4 packets (two addresses, same address with another length, empty); non-trivial = histories"},
     "C05": {"level": "model_checking", "run": run_C05, "assumptions": ASSUME_COMMON,
